@@ -177,6 +177,9 @@ func cfgName(c scen.BrokerCfg, always bool, chunk int, late bool) string {
 	if c.Echo {
 		s += "/echo"
 	}
+	if c.Redeliver {
+		s += "/redeliver"
+	}
 	if always {
 		s += "/always"
 	}
@@ -796,6 +799,7 @@ func fuzzScenario(rng *rand.Rand) scen.Scenario {
 	// configuration
 	sc.Cfg = scen.BrokerCfg{Method: allMethods[rng.Intn(len(allMethods))], Session: []string{"keep", "lose"}[rng.Intn(2)], Echo: echo}
 	sc.AlwaysResub = rng.Intn(4) == 0
+	sc.Cfg.Redeliver = sc.Cfg.Session == "keep" && rng.Intn(3) == 0
 	sc.Chunk = []int{0, 0, 1, 3}[rng.Intn(4)]
 	sc.LateWriteOK = rng.Intn(4) == 0
 	sc.SlowReturn = []int{0, 0, 2}[rng.Intn(3)]
